@@ -12,6 +12,7 @@ import (
 	"encoding/base64"
 	"encoding/json"
 	"fmt"
+	"math"
 	"os"
 	"os/exec"
 	"sort"
@@ -697,6 +698,9 @@ func c03RunJS(c *Ctx, jobs []c03JSJob) {
 			continue
 		}
 		rep.Count("js:evaluated")
+		if ok, has := r["ok"]; has {
+			r["ok"] = c03NegZero(ok)
+		}
 		got := "error"
 		if _, bad := r["err"]; !bad {
 			got = Canon(r["ok"])
@@ -805,6 +809,7 @@ func c03Corpus() []c03Case {
 		{o("a", i(1)), o("__key", nil, "a", i(1))},                                                      // nil __key appears
 		{o("__key", a(i(1)), "a", i(1)), o("__key", a(i(1)), "a", i(2))},                                // C15-6: a __key that is a list
 		{a(o("__key", o("x", i(1)), "a", i(1)), o("__key", a(), "a", i(2))), a(o("__key", a(), "a", i(2)), o("__key", o("x", i(1)), "a", i(3)))},
+		{o("a", 0.0), o("a", math.Copysign(0, -1))},                  // C02-2: 0 becomes -0 (as elements of an array 0 and -0 are one reorder key in Go and two scalar tokens in the model: not in the corpus)
 		{a(i(1), i(2)), a(i(2), i(1))},                               // C03-5: reorder indices of a delta that has not been through JSON
 		{o("a", i(1)), o("a", i(1))},                                 // C03-6 / C03-7: the empty delta
 		{a(i(1)), a(nil)},                                            // C03-8: a new element that is null
@@ -857,4 +862,23 @@ func c03Retype(v interface{}) interface{} {
 	default:
 		return v
 	}
+}
+
+// c03NegZero puts the float -0 back where run_merge.js wrote its marker (JSON.stringify prints -0 as 0)
+func c03NegZero(v interface{}) interface{} {
+	switch x := v.(type) {
+	case string:
+		if x == "@@negzero" {
+			return math.Copysign(0, -1)
+		}
+	case []interface{}:
+		for i := range x {
+			x[i] = c03NegZero(x[i])
+		}
+	case map[string]interface{}:
+		for k := range x {
+			x[k] = c03NegZero(x[k])
+		}
+	}
+	return v
 }
